@@ -1,6 +1,9 @@
 (* Properties/C03.v - A truncated, over-long or spliced body is never reported as success.
-   Only statements, `exact`, and Print Assumptions.  Model: Model/BodyFraming.v. *)
-From ReqV Require Import Lib.Bytes Model.BodyFraming Proofs.BodyFramingProofs.
+   Only statements, `exact`, and Print Assumptions.  Models: Model/BodyFraming.v (HTTP/1.1),
+   Model/StreamBody.v (HTTP/2, HTTP/3 frame events), Model/StreamWire.v (HTTP/3 stream bytes). *)
+From ReqV Require Import Lib.Bytes Lib.BigEndian Model.BodyFraming Model.StreamBody Model.StreamWire
+  Proofs.BodyFramingProofs Proofs.QuicVarintProofs Proofs.StreamBodyProofs Proofs.StreamWireProofs.
+Local Open Scope nat_scope.
 
 (* HTTP/1.1, Content-Length and chunked framing (every body, every chunk partition with any
    extensions and size spellings the reader accepts, any trailer section): for EVERY cut
@@ -59,6 +62,158 @@ Theorem C03_gzip_truncation_detected : forall (gunzip : bytes -> option bytes) h
             gz_result gunzip r = None.
 Proof. exact gzip_truncation_detected_thm. Qed.
 Print Assumptions C03_gzip_truncation_detected.
+
+(* ===================== HTTP/2 (transportResponseBody over the stream's frame events) =====================
+   h2_sent = payload of the stream's DATA frames up to its terminal event (padding is no part of
+   it); h2_ending = END_STREAM (on DATA or trailers) / RST_STREAM / GOAWAY+close / connection end /
+   still open.  All statements are over ALL event lists. *)
+
+(* success iff the stream ended with END_STREAM and the DATA total equals the declared length
+   (if any) - and then the caller has exactly the DATA sent *)
+Theorem C03_h2_clean_iff : forall cl evs d,
+  h2_read cl false evs = (d, H2Clean) <->
+  (h2_ending evs = E2EndStream /\ d = h2_sent evs /\ (cl = None \/ cl = Some (lenN (h2_sent evs)))).
+Proof. exact h2_clean_iff_thm. Qed.
+Print Assumptions C03_h2_clean_iff.
+
+(* sum(DATA) > Content-Length: exactly the declared bytes, then an error - whatever follows *)
+Theorem C03_h2_too_much_detected : forall n evs, (n < lenN (h2_sent evs))%N ->
+  h2_read (Some n) false evs = (firstn (N.to_nat n) (h2_sent evs), H2TooMuch).
+Proof. exact h2_too_much_thm. Qed.
+Print Assumptions C03_h2_too_much_detected.
+
+(* declared bytes still owed when the stream ends - END_STREAM, RST_STREAM, GOAWAY, connection
+   end, nothing yet - is never a clean end; after END_STREAM it is io.ErrUnexpectedEOF *)
+Theorem C03_h2_too_little_detected : forall n evs, (lenN (h2_sent evs) < n)%N ->
+  exists e, h2_read (Some n) false evs = (h2_sent evs, e) /\ e <> H2Clean /\
+    (h2_ending evs = E2EndStream -> e = H2UnexpectedEOF).
+Proof. exact h2_too_little_thm. Qed.
+Print Assumptions C03_h2_too_little_detected.
+
+(* RST_STREAM / GOAWAY / connection end (at a frame boundary or inside a frame) before
+   END_STREAM: an error, with or without a declared length *)
+Theorem C03_h2_abnormal_end_is_error : forall cl evs,
+  h2_ending evs = E2Rst \/ h2_ending evs = E2GoAway \/ h2_ending evs = E2ConnEnd ->
+  snd (h2_read cl false evs) <> H2Clean /\ snd (h2_read cl false evs) <> H2Pending.
+Proof. exact h2_abnormal_end_thm. Qed.
+Print Assumptions C03_h2_abnormal_end_is_error.
+
+(* nothing padded, nothing spliced, never more than declared *)
+Theorem C03_h2_delivered_is_prefix : forall cl evs,
+  exists m, fst (h2_read cl false evs) = firstn m (h2_sent evs) /\
+            (forall n, cl = Some n -> (lenN (fst (h2_read cl false evs)) <= n)%N).
+Proof. exact h2_delivered_prefix_thm. Qed.
+Print Assumptions C03_h2_delivered_is_prefix.
+
+(* END_STREAM already on HEADERS with a positive declared length *)
+Theorem C03_h2_headers_end : forall cl evs,
+  h2_read cl true evs =
+  ([], match cl with Some n => if (0 <? n)%N then H2UnexpectedEOF else H2Clean | None => H2Clean end).
+Proof. exact h2_headers_end_thm. Qed.
+Print Assumptions C03_h2_headers_end.
+
+(* the connection the peer ended is not the one the next request uses *)
+Theorem C03_h2_dead_conn_not_reused : forall evs,
+  (h2_ending evs = E2GoAway \/ h2_ending evs = E2ConnEnd -> h2_conn_usable evs = false) /\
+  (h2_ending evs = E2EndStream -> h2_conn_usable evs = true).
+Proof. exact h2_conn_usable_thm. Qed.
+Print Assumptions C03_h2_dead_conn_not_reused.
+
+(* ===================== HTTP/3, frame events (body.Read over stream.Read) ===================== *)
+(* success iff FIN, every DATA frame whole, DATA total = declared length (if any) *)
+Theorem C03_h3_clean_iff : forall evs rem d, h3_wf evs ->
+  h3_read true rem evs = (d, H3Clean) <->
+  (h3_ending evs = E3Fin /\ h3_frames_whole evs = true /\ d = h3_sent evs /\
+   (rem = None \/ rem = Some (lenN (h3_sent evs)))).
+Proof. exact h3_clean_iff_thm. Qed.
+Print Assumptions C03_h3_clean_iff.
+
+(* too much data - inside a frame or in a frame of its own behind the declared length *)
+Theorem C03_h3_surplus_detected : forall strict evs k, h3_wf evs -> h3_frames_whole evs = true ->
+  (k < lenN (h3_sent evs))%N ->
+  h3_read strict (Some k) evs = (firstn (N.to_nat k) (h3_sent evs), H3TooMuch).
+Proof. exact h3_surplus_detected_thm. Qed.
+Print Assumptions C03_h3_surplus_detected.
+
+Theorem C03_h3_reset_or_close_is_error : forall evs rem, h3_wf evs ->
+  h3_ending evs = E3Reset \/ h3_ending evs = E3ConnClose ->
+  snd (h3_read true rem evs) <> H3Clean.
+Proof. exact h3_abnormal_end_thm. Qed.
+Print Assumptions C03_h3_reset_or_close_is_error.
+
+Theorem C03_h3_delivered_is_prefix : forall strict evs rem, h3_wf evs ->
+  exists m, fst (h3_read strict rem evs) = firstn m (h3_sent evs) /\
+            (forall k, rem = Some k -> (lenN (fst (h3_read strict rem evs)) <= k)%N).
+Proof. exact h3_delivered_prefix_thm. Qed.
+Print Assumptions C03_h3_delivered_is_prefix.
+
+(* the pinned code (strict = false) reported a FIN before the declared length as a clean end *)
+Example C03_h3_pinned_refuted :
+  h3_read false (Some 5%N) [H3Data 2 (bs "ab"); H3Fin] = (bs "ab", H3Clean) /\
+  h3_read true (Some 5%N) [H3Data 2 (bs "ab"); H3Fin] = (bs "ab", H3UnexpectedEOF).
+Proof. split; reflexivity. Qed.
+
+(* ===================== HTTP/3, stream bytes (every cut offset) =====================
+   fs: any sequence of DATA frames, each with any payload and any of the four varint widths for
+   its type and length; h3_render fs = the bytes on the stream behind the response HEADERS.
+   For EVERY cut offset k and every way the stream can end (FIN, RESET_STREAM,
+   CONNECTION_CLOSE) and every declared length: the caller gets a prefix of the body, never
+   more than declared, and the result is clean only if the stream ended by FIN exactly between
+   two frames, the caller got exactly the payload of the frames before the cut, and that is
+   all that was declared. *)
+Theorem C03_h3_every_cut : forall fs cl k e, Forall df_wf fs -> k <= length (h3_render fs) ->
+  exists d r, h3_wire_read true cl (firstn k (h3_render fs)) e = (d, r) /\
+    (exists m, d = firstn m (h3_body fs)) /\
+    (forall n, cl = Some n -> (lenN d <= n)%N) /\
+    (r = W3 H3Clean -> e = EndFin /\ h3_boundary fs k d /\ (cl = None \/ cl = Some (lenN d))).
+Proof. exact h3_wire_cut_thm. Qed.
+Print Assumptions C03_h3_every_cut.
+
+(* with the length declared: every cut strictly inside the message, and every ending other
+   than FIN, is an error after a prefix of the body *)
+Theorem C03_h3_truncation_detected : forall fs k e, Forall df_wf fs ->
+  (forall f, In f fs -> df_p f <> []) ->
+  k <= length (h3_render fs) ->
+  (k < length (h3_render fs) \/ e <> EndFin) ->
+  exists d r, h3_wire_read true (Some (lenN (h3_body fs))) (firstn k (h3_render fs)) e = (d, r) /\
+    r <> W3 H3Clean /\ exists m, d = firstn m (h3_body fs).
+Proof. exact h3_wire_truncation_detected_thm. Qed.
+Print Assumptions C03_h3_truncation_detected.
+
+(* the complete message reads back exactly (the statements above are not vacuous) *)
+Theorem C03_h3_complete_exact : forall fs cl, Forall df_wf fs ->
+  cl = None \/ cl = Some (lenN (h3_body fs)) ->
+  h3_wire_read true cl (h3_render fs) EndFin = (h3_body fs, W3 H3Clean).
+Proof. exact h3_wire_complete_thm. Qed.
+Print Assumptions C03_h3_complete_exact.
+
+(* on whole frames the byte-level reader is the event-level reader *)
+Theorem C03_h3_wire_refines_events : forall fs strict cl e, Forall df_wf fs ->
+  h3_wire_read strict cl (h3_render fs) e =
+  (fst (h3_read strict cl (h3_events fs ++ [h3_term e])),
+   W3 (snd (h3_read strict cl (h3_events fs ++ [h3_term e])))).
+Proof. exact h3_wire_refines_events_thm. Qed.
+Print Assumptions C03_h3_wire_refines_events.
+
+(* non-vacuity for HTTP/2 and HTTP/3: concrete streams *)
+Example C03_streams_nonvacuous :
+  h2_read (Some 5%N) false [H2Data (bs "hel") false; H2Data (bs "lo") true] = (bs "hello", H2Clean) /\
+  h2_read (Some 5%N) false [H2Data (bs "hel") false; H2Rst 0] = (bs "hel", H2StreamErr) /\
+  h2_read None false [H2Data (bs "hel") false; H2Rst 0] = (bs "hel", H2StreamErr) /\
+  h2_read (Some 2%N) false [H2Data (bs "hel") false; H2Data (bs "lo") true] = (bs "he", H2TooMuch) /\
+  (let fs := [mkDF 1 1 (bs "hel"); mkDF 2 4 (bs "lo")] in
+   Forall df_wf fs /\ length (h3_render fs) = 13 /\
+   h3_wire_read true (Some 5%N) (h3_render fs) EndFin = (bs "hello", W3 H3Clean) /\
+   h3_wire_read true (Some 5%N) (firstn 5 (h3_render fs)) EndFin = (bs "hel", W3 H3UnexpectedEOF) /\
+   h3_wire_read true (Some 5%N) (firstn 6 (h3_render fs)) EndFin = (bs "hel", W3 H3UnexpectedEOF) /\
+   h3_wire_read true None (firstn 5 (h3_render fs)) EndFin = (bs "hel", W3 H3Clean) /\
+   h3_wire_read true (Some 4%N) (h3_render fs) EndFin = (bs "hell", W3 H3TooMuch) /\
+   h3_wire_read true (Some 3%N) (h3_render fs) EndFin = (bs "hel", W3 H3TooMuch)).
+Proof.
+  repeat split; try reflexivity.
+  repeat (apply Forall_cons || apply Forall_nil); unfold df_wf, vi_lenok; cbn;
+    repeat split; try reflexivity; auto 10.
+Qed.
 
 (* non-vacuity: a concrete chunked message with extensions, an odd size spelling and a
    trailer meets the well-formedness premises; it reads back exactly, leaving a spliced
